@@ -62,6 +62,19 @@ pub fn check_amplification(out: &Outcome, obs: &mut Obs) -> Result<Summary, Fail
     let addrs_of = |i: usize| -> Vec<SocketAddr> {
         std::iter::once(clients[i]).chain(out.rebinds.iter().filter(|(_, c, _)| *c == i).map(|(_, _, a)| *a)).collect()
     };
+    // first instant at which the server processed (= authenticated) a Handshake packet that arrived from one of `addrs`
+    // (a datagram damaged in its leading Initial packet can still carry an undamaged Handshake packet)
+    let handshake_processed = |addrs: &[SocketAddr]| -> u64 {
+        let mut last_remote: Option<SocketAddr> = None;
+        for r in out.recs.iter().filter(|r| r.ep == 0) {
+            match &r.ev {
+                crate::rec::Ev::RxDatagram { remote, .. } => last_remote = Some(*remote),
+                crate::rec::Ev::Rx { space: crate::rec::Space::Handshake, .. } if last_remote.map(|a| addrs.contains(&a)).unwrap_or(false) => return r.t_us,
+                _ => {}
+            }
+        }
+        u64::MAX
+    };
     for (i, c) in clients.iter().enumerate() {
         // (a Handshake packet proves that the client processed the server's Initial, which was sent to this address: it
         // validates this address from whichever address the client sends it, RFC 9000 8.1)
@@ -72,10 +85,11 @@ pub fn check_amplification(out: &Outcome, obs: &mut Obs) -> Result<Summary, Fail
             .filter(|n| mine.contains(&n.src) && n.dst == server && n.intact && !n.deliveries_us.is_empty() && contains(n, PktType::Handshake))
             .map(|n| n.deliveries_us[0])
             .min()
-            .unwrap_or(u64::MAX);
+            .unwrap_or(u64::MAX)
+            .min(handshake_processed(&mine));
         targets.push((*c, t_valid, false));
     }
-    for (_, _, a) in &out.rebinds {
+    for (_, owner, a) in &out.rebinds {
         let mut last_remote: Option<SocketAddr> = None;
         let mut t_valid = u64::MAX;
         for r in out.recs.iter().filter(|r| r.ep == 0) {
@@ -99,7 +113,8 @@ pub fn check_amplification(out: &Outcome, obs: &mut Obs) -> Result<Summary, Fail
                 .map(|n| n.deliveries_us[0])
                 .min()
                 .unwrap_or(u64::MAX);
-            t_valid = t_valid.min(t_hs);
+            // (from whichever of the client's addresses the Handshake packet came: it proves receipt of what was sent here)
+            t_valid = t_valid.min(t_hs).min(handshake_processed(&addrs_of(*owner)));
         }
         targets.push((*a, t_valid, true));
     }
@@ -342,7 +357,10 @@ pub fn scenario() -> impl Strategy<Value = Scenario> {
 pub fn migration_scenario() -> impl Strategy<Value = Scenario> {
     const MCFG: GenCfg = GenCfg { max_clients: 1, max_streams: 2, max_bytes: 60_000, faults: FaultProfile::Lossy, small_windows_pct: 5, aborts: false, idle_ms: (3_000, 8_000), cap_ms: 20_000, server_initiated: true };
     let moves = prop::collection::vec((60u32..1_500, prop_oneof![3 => 0u32..8, 2 => 8u32..120, 1 => 120u32..1_000]), 1..4);
-    (gen::scenario(MCFG), moves, prop::collection::vec(prop_oneof![(1_000u32..300_000).prop_map(WStep::PauseUs), (1u32..3_000).prop_map(WStep::Send)], 0..8)).prop_map(|(mut sc, moves, trickle)| {
+    // in a third of the cases the new address goes silent right after its first datagrams and the server application
+    // closes the connection while the path is still unvalidated
+    let silence_and_close = prop_oneof![2 => Just(None), 1 => (0u32..40, 1_000u32..400_000).prop_map(Some)];
+    (gen::scenario(MCFG), moves, prop::collection::vec(prop_oneof![(1_000u32..300_000).prop_map(WStep::PauseUs), (1u32..3_000).prop_map(WStep::Send)], 0..8), silence_and_close).prop_map(|(mut sc, moves, trickle, silence)| {
         // first move at an absolute instant, the following ones after short gaps
         let mut t = 0u32;
         sc.rebinds = moves
@@ -360,6 +378,12 @@ pub fn migration_scenario() -> impl Strategy<Value = Scenario> {
         sc.clients[0].conn.close_code = None;
         sc.net.tape_repeat = false;
         sc.net.max_udp_payload = 65_000;
+        if let Some((gap_ms, close_after_us)) = silence {
+            let last_move_ms = sc.rebinds.last().map(|(_, t)| *t as u64).unwrap_or(0);
+            sc.net.blackholes.push(Blackhole { from_ms: last_move_ms + gap_ms as u64, to_ms: u64::MAX, up: true, down: false });
+            // (relative to the server's accept, which is a few round trips after the start)
+            sc.clients[0].conn.server_close = Some(((last_move_ms as u32).saturating_mul(1000).saturating_add(close_after_us), 7));
+        }
         sc
     })
 }
@@ -392,7 +416,7 @@ fn base_scenario(shape: u64) -> Scenario {
     Scenario {
         seed: 7,
         server,
-        clients: vec![ClientCfg { endpoint: client, conn: ConnScript { streams: vec![stream], close_code: Some(0), datagrams: vec![] } }],
+        clients: vec![ClientCfg { endpoint: client, conn: ConnScript { streams: vec![stream], close_code: Some(0), datagrams: vec![], server_close: None } }],
         net: NetCfg::default(),
         cap_ms: 8_000,
         strays: vec![],
